@@ -653,7 +653,8 @@ class PybindWrapper:
 
                 elif isinstance(element, instantiator.InstantiatedClass):
                     wrapped += self.wrap_instantiated_class(element)
-                    wrapped += self.wrap_enums(element.enums, element)
+                    if element.to_cpp() not in self.ignore_classes:
+                        wrapped += self.wrap_enums(element.enums, element)
 
                 elif isinstance(element, instantiator.InstantiatedDeclaration):
                     wrapped += self.wrap_instantiated_declaration(element)
